@@ -177,7 +177,7 @@ func main() {
 	}
 	hs := corpus()
 	ncorp := len(hs)
-	n := c.N(150, 3000)
+	n := c.N(150, 2000)
 	maxE := 12
 	for i := 0; i < n; i++ {
 		hs = append(hs, updsim.Gen(c.Rng, updsim.GenOpts{MaxEntries: maxE, MaxChans: 2}))
